@@ -49,6 +49,12 @@ def configs(tier, seed):
         for mode in MODES:
             out.append(dict(kind='tuple4', wc=wc, wr=wr, mode=mode, J=1, H=8, W=6, dir='inv', B=1, C=1, mask=[1]))
         out.append(dict(kind='tuple4', wc=wc, wr=wr, mode='periodization', J=2, H=16, W=24, dir='inv', B=1, C=1, mask=[1, 0]))
+    # the same calls under torch.no_grad(), on inputs that require grad, on transposed / channels-last storage
+    for ctx in D.CTXS:
+        for mode in ('zero', 'reflect', 'periodization'):
+            for d in ('fwd', 'inv'):
+                out.append(dict(kind='tuple4', wc=pairs[0][0], wr=pairs[0][1], mode=mode, J=2, H=12, W=13, dir=d, B=1, C=2, ctx=ctx))
+        out.append(dict(kind='tuple4', wc=pairs[1][0], wr=pairs[1][1], mode='symmetric', J=1, H=8, W=6, dir='inv', B=1, C=1, mask=[1], ctx=ctx))
     for w in ['db2', 'bior2.4']:
         for mode in MODES:
             for d in ('fwd', 'inv'):
@@ -83,7 +89,7 @@ def _case(cfg):
         in_specs = [('x', (B, C, cfg['H'], cfg['W']))]
 
         def impl(pw, ts):
-            yl, yh = pw.DWTForward(J=cfg['J'], wave=_filts(cfg, 'fwd'), mode=cfg['mode'])(ts[0])
+            yl, yh = D.call_ctx(pw, cfg, lambda a: pw.DWTForward(J=cfg['J'], wave=_filts(cfg, 'fwd'), mode=cfg['mode'])(a[0]), ts)
             return [('yl', yl)] + [('yh%d' % (j + 1), h) for j, h in enumerate(yh)]
 
         def ref(arrs):
@@ -97,7 +103,7 @@ def _case(cfg):
 
         def impl(pw, ts):
             hs = [None if mask[j] else h for j, h in enumerate(ts[1:])]
-            y = pw.DWTInverse(wave=_filts(cfg, 'inv'), mode=cfg['mode'])((ts[0], hs))
+            y = D.call_ctx(pw, cfg, lambda a: pw.DWTInverse(wave=_filts(cfg, 'inv'), mode=cfg['mode'])((a[0], a[1:])), [ts[0]] + hs)
             return [('rec', y)]
 
         def ref(arrs):
